@@ -1,3 +1,4 @@
 from driver import Unit, Inst
-def units(tier): return [Unit('c16', shim='c16.cpp', ctors=False)]
-def instances(tier): return [Inst('c16', 'h_c16_v6_iter', params=(1,), unwind=18, timeout=100)]
+import C01
+def units(tier): return [Unit('dbg', shim='dbg.cpp', ctors=True, redirect=[p for p in C01.plan('quick') if p[0]=='IP'][0][3], differential=False)]
+def instances(tier): return [Inst('dbg', 'h_c14_rel_IP', unwind=24, unwindset={'vp_buf.0': 50}, timeout=100)]
